@@ -1931,6 +1931,9 @@ involves_unpublished(CPPType *type) {
   case CPPDeclaration::ST_pointer:
     return involves_unpublished(type->as_pointer_type()->_pointing_at);
 
+  case CPPDeclaration::ST_array:
+    return involves_unpublished(type->as_array_type()->_element_type);
+
   case CPPDeclaration::ST_struct:
     // A struct type is unpublished only if all of its members are
     // unpublished.
@@ -2008,6 +2011,9 @@ involves_protected(CPPType *type) {
 
   case CPPDeclaration::ST_pointer:
     return involves_protected(type->as_pointer_type()->_pointing_at);
+
+  case CPPDeclaration::ST_array:
+    return involves_protected(type->as_array_type()->_element_type);
 
   case CPPDeclaration::ST_function:
     {
